@@ -217,8 +217,20 @@ func (e *Engine) wrap(t types.Type, x string) string {
 	if lo == nil {
 		return x
 	}
+	if c, ok := constOf(x); ok && x != "" {
+		// literal: fold
+		r := new(big.Int).Mod(c, pow2(bits))
+		if signed && r.Cmp(pow2(bits-1)) >= 0 {
+			r.Sub(r, pow2(bits))
+		}
+		return bigTerm(r)
+	}
 	m := pow2(bits).String()
 	if !signed {
+		if len(x) < 70 {
+			// the in-range case first: spares the solver the modulus in the common case
+			return "(ite (and (<= 0 " + x + ") (< " + x + " " + m + ")) " + x + " (mod " + x + " " + m + "))"
+		}
 		return "(mod " + x + " " + m + ")"
 	}
 	h := pow2(bits - 1).String()
@@ -438,7 +450,14 @@ func (e *Engine) needBytes() {
 	ax("blen_cat", "(forall ((a Bytes) (b Bytes)) (! (= (blen (bcat a b)) (+ (blen a) (blen b))) :pattern ((bcat a b))))")
 	ax("blen_take", "(forall ((a Bytes) (n Int)) (! (=> (and (<= 0 n) (<= n (blen a))) (= (blen (btake a n)) n)) :pattern ((btake a n))))")
 	ax("blen_drop", "(forall ((a Bytes) (n Int)) (! (=> (and (<= 0 n) (<= n (blen a))) (= (blen (bdrop a n)) (- (blen a) n))) :pattern ((bdrop a n))))")
-	ax("cat_assoc", "(forall ((a Bytes) (b Bytes) (c Bytes)) (! (= (bcat (bcat a b) c) (bcat a (bcat b c))) :pattern ((bcat (bcat a b) c)) :pattern ((bcat a (bcat b c)))))")
+	// re-association generates Catalan-many terms on long concatenations: contracts whose specification is written in
+	// the same (left-nested) shape as the code produces it switch it off with `use noassoc`
+	e.d.addAxiom("bytes_assoc", "cat_assoc", "(forall ((a Bytes) (b Bytes) (c Bytes)) (! (= (bcat (bcat a b) c) (bcat a (bcat b c))) :pattern ((bcat (bcat a b) c)) :pattern ((bcat a (bcat b c)))))")
+	// one-directional re-association (normalises towards right-nested concatenations; polynomially many terms)
+	e.d.addAxiom("assoc_r", "cat_assoc_r", "(forall ((a Bytes) (b Bytes) (c Bytes)) (! (= (bcat (bcat a b) c) (bcat a (bcat b c))) :pattern ((bcat (bcat a b) c))))")
+	ax("take_cat_l", "(forall ((a Bytes) (b Bytes) (n Int)) (! (=> (and (<= 0 n) (<= n (blen a))) (= (btake (bcat a b) n) (btake a n))) :pattern ((btake (bcat a b) n))))")
+	ax("drop_cat_r", "(forall ((a Bytes) (b Bytes) (n Int)) (! (=> (and (<= (blen a) n) (<= n (+ (blen a) (blen b)))) (= (bdrop (bcat a b) n) (bdrop b (- n (blen a))))) :pattern ((bdrop (bcat a b) n))))")
+	ax("drop_all", "(forall ((a Bytes)) (! (= (bdrop a (blen a)) bempty) :pattern ((bdrop a (blen a)))))")
 	ax("cat_empty_r", "(forall ((a Bytes)) (! (= (bcat a bempty) a) :pattern ((bcat a bempty))))")
 	ax("cat_empty_l", "(forall ((a Bytes)) (! (= (bcat bempty a) a) :pattern ((bcat bempty a))))")
 	ax("take_zero", "(forall ((a Bytes)) (! (= (btake a 0) bempty) :pattern ((btake a 0))))")
